@@ -266,6 +266,13 @@ class NumericalGradient(Operator):
             raise RuntimeError('unknown method')
 
         dfdx /= self.step
+
+        # Account for the weighting of the space (Riesz representation)
+        weighting = getattr(self.domain, 'weighting', None)
+        if hasattr(weighting, 'const'):
+            dfdx /= weighting.const
+        elif hasattr(weighting, 'array'):
+            dfdx /= weighting.array
         return dfdx
 
     def derivative(self, point):
